@@ -12,6 +12,8 @@ CHECKS = {
    text="All arrays of arity 3,4,5 over a 29-value slot alphabet (reduced alphabets for the largest products in quick) and arity 0,1,2,6,7 over a reduced one, every non-array kind, decoded as each of the 8 structure types untagged and tagged; accept/reject and every field compared with the reference CDDL rules; encodings within 1-2 deviations."),
  "C10": dict(section="4.10", technique="exhaustive enumeration of bounded key maps and key sets (explicit-state tree search) against an independent reference decoder",
    text="Every COSE_Key map with <= 3/4 entries over a ~70-pair alphabet in every order (kty at every position, absent, reserved, duplicated), as a key and inside a key set; all key sets of 0..3 valid/invalid elements; encodings within 1-2 deviations."),
+ "C11": dict(section="4.11", technique="exhaustive enumeration of per-field palette products of in-memory values for every type; real encoder output read by an independent CBOR parser and compared with a reference encoder",
+   text="~18k values (full products of per-field palettes for headers, keys, claims; all 8 message types over protected/unprotected/payload/nested-list palettes; labels and every registered value of every registry label type): to_vec succeeds, output is definite-length with shortest heads, independently parsed output equals the reference encoding (maps modulo order, extras in order, protected slots parsed), decoding the output returns the value, tagged forms too."),
  "C12": dict(section="4.12", technique="exhaustive enumeration of duplicate-label placements x label encodings x carriers (decode) and of colliding in-memory values (encode)",
    text="Decode: every label of a boundary-crossing set x every pair of encodings x every pair of positions in maps of size 2..4 x every carrier (29 header positions, key, key set, claims) must be rejected, with the duplicate-key error when it is the only fault. Encode: see C11-style enumeration of colliding in-memory values."),
  "C13": dict(section="4.13", technique="exhaustive prefix/suffix enumeration over every accepted input of the structured spaces; layer-agreement differential on every input",
@@ -20,10 +22,14 @@ CHECKS = {
    text="Exact iff of the statement for every combination, plus bytewise to_tagged_vec == tag head || to_vec and tagged round trip."),
  "C15": dict(section="4.15", technique="exhaustive enumeration of an integer boundary lattice and window x interpreting positions x head widths against exact-arithmetic reference",
    text="~1.3k lattice integers in [-2^64, 2^64-1] plus a window (+-300 quick / +-70000 thorough) at 34 positions under every head width: exact value or out-of-range error; extras preserved; re-encoding reads back as the same integer with a minimal head."),
+ "C16": dict(section="4.16", technique="exhaustive enumeration of all pairs and triples over a boundary-crossing label set for Label and all 12 registry label instantiations",
+   text="Order laws (Eq-consistency, antisymmetry, partial_cmp, transitivity on all triples) and agreement of cmp / cmp_canonical with bytewise / length-first comparison of independently produced deterministic encodings."),
  "C17": dict(section="4.17", technique="exhaustive enumeration of [-70000,70000] + 64-bit extremes over all 16 registry enums and all label-typed decode positions against a registry snapshot",
    text="from_i64/to_i64/Debug name/is_private compared with the refiana snapshot for every integer of the window in every registry, every snapshot row must be hit; classification through decoding at every label-typed position."),
  "C18": dict(section="4.18", technique="exhaustive enumeration of bounded claims maps and KDF-context arrays (explicit-state tree/product search) against an independent reference, with re-encode/decode of every accepted value",
    text="All claims maps with <= 3/4 entries over a ~105-pair alphabet; all PartyInfo / SuppPubInfo arrays of arity 0..4-5 over slot alphabets; all KDF contexts over (alg x party x party x supp x trailing) alphabets; accept/reject, fields (private KDF fields via builder-constructed expected value and via re-encoding) and fixed point."),
+ "C20": dict(section="4.20", technique="exhaustive enumeration of keys: typed-field subsets x every ordered selection of <= 3/4 extra labels from a 14-label palette x both orderings, in-memory and decoded",
+   text="After canonicalize the emitted map keys (read by the independent parser) are strictly ascending under the chosen ordering, the pair set is unchanged, a second canonicalize is a no-op and decode/re-encode reproduces the bytes."),
 }
 for c in CHECKS.values():
     c.setdefault('note', TRUST)
